@@ -225,12 +225,12 @@ def run(ctx, prop, mc, focus, shaping, sim_len=30, extra_paths=None, extra_unive
     groups.append((uname, run_steps(uni, ssample, rng, 12 if quick else 30, 'S', list(focus) * 3 + list(shaping))))
     for un in ('big', 'mc3'):
         u = ds.UNIVERSES[un]
-        rstates = [random_state(u, rng) for _ in range(120 if quick else 3000)]
+        rstates = [random_state(u, rng) for _ in range(200 if quick else 3000)]
         groups.append((un, run_steps(u, rstates, rng, 10 if quick else 25, 'T' + un[0], list(focus))))
     if extra_paths:
-        groups.append((extra_universe, run_paths(ds.UNIVERSES[extra_universe], extra_paths(rng, 150 if quick else 4000), 'D')))
-    groups.append(('big', run_random(ds.UNIVERSES['big'], rng, 60 if quick else 1500, sim_len, 'R', ops_all)))
-    groups.append(('mc3', run_random(ds.UNIVERSES['mc3'], rng, 40 if quick else 1000, sim_len, 'Q', ops_all)))
+        groups.append((extra_universe, run_paths(ds.UNIVERSES[extra_universe], extra_paths(rng, 300 if quick else 4000), 'D')))
+    groups.append(('big', run_random(ds.UNIVERSES['big'], rng, 100 if quick else 1500, sim_len, 'R', ops_all)))
+    groups.append(('mc3', run_random(ds.UNIVERSES['mc3'], rng, 70 if quick else 1000, sim_len, 'Q', ops_all)))
     n_tr = 0
     for un, traces in groups:
         defs, cfgc = ds.tla_constants(ds.UNIVERSES[un])
